@@ -133,17 +133,30 @@ func c09ErrorsSurface(c *Ctx) {
 // path on which Store.GetChunk failed with io.EOF, the error Read returns is not
 // that io.EOF.
 func c09StoreEOF(c *Ctx) {
-	fn := c.mustFn("IndexPos.Read")
-	load := c.mustFn("IndexPos.loadChunk")
-	if fn == nil || load == nil {
+	c.storeEOF("IndexPos.Read", "io.Copy reports success with truncated data", "IndexPos.loadChunk")
+}
+
+// storeEOF: the reader entry point key (inner functions inlined) never hands a store's io.EOF on
+// as its own error.
+func (c *Ctx) storeEOF(key, consequence string, inner ...string) {
+	fn := c.mustFn(key)
+	if fn == nil {
 		return
+	}
+	inl := map[*ssa.Function]bool{}
+	for _, k := range inner {
+		f := c.mustFn(k)
+		if f == nil {
+			return
+		}
+		inl[f] = true
 	}
 	var bad []string
 	eofPaths := 0
 	h := &Hooks{MaxVisits: 2, MaxPaths: 100000}
 	h.Inline = func(st *State, call *ssa.Call) (*ssa.Function, bool) {
-		if c.staticFn(call) == load {
-			return load, false
+		if f := c.staticFn(call); f != nil && inl[f] {
+			return f, false
 		}
 		return nil, false
 	}
@@ -179,13 +192,13 @@ func c09StoreEOF(c *Ctx) {
 	c.paths += h.Paths
 	switch {
 	case h.Truncated:
-		c.bad("IndexPos.Read:store-eof", fn.Pos(), "path exploration truncated")
+		c.bad(key+":store-eof", fn.Pos(), "path exploration truncated")
 	case eofPaths == 0:
-		c.bad("IndexPos.Read:store-eof", fn.Pos(), "no path on which a chunk load fails was found")
+		c.bad(key+":store-eof", fn.Pos(), "no path on which a chunk load fails was found")
 	case len(bad) > 0:
-		c.bad("IndexPos.Read:store-eof", fn.Pos(), "a store that fails with io.EOF ends the read like the end of the blob: %s; io.Copy reports success with truncated data", bad[0])
+		c.bad(key+":store-eof", fn.Pos(), "a store that fails with io.EOF ends the read like the end of the blob: %s; %s", bad[0], consequence)
 	default:
-		c.ok("IndexPos.Read:store-eof", fn.Pos(), "on %d path(s) with a store failure of io.EOF, Read returns another non-nil error", eofPaths)
+		c.ok(key+":store-eof", fn.Pos(), "on %d path(s) with a store failure of io.EOF, the read returns another non-nil error", eofPaths)
 	}
 }
 
